@@ -1,4 +1,5 @@
 CONSTANTS Depth = 1
+          RootPats = "all"
           Mode = "emit"
 SPECIFICATION Spec
 INVARIANT Emit
